@@ -149,6 +149,13 @@ pub fn axial_iso(r: &mut StdRng) -> Iso {
     Iso { r: oracle::rot('z', r.gen_range(-PI..PI)), t: [0.0, 0.0, r.gen_range(0.02..0.4)] }
 }
 
+pub fn pgram5(r: &mut StdRng) -> LayerF {
+    let driven = r.gen_range(0..5);
+    let mut coupled = r.gen_range(0..4);
+    if coupled >= driven { coupled += 1; }
+    LayerF::Pgram { driven, coupled, scaling: [1.0, -1.0, 0.5, 1.3][r.gen_range(0..4)] }
+}
+
 pub fn random_pgram(r: &mut StdRng) -> LayerF {
     let driven = r.gen_range(0..6);
     let mut coupled = r.gen_range(0..5);
@@ -192,6 +199,10 @@ pub fn stack_for(class: &str, r: &mut StdRng) -> Vec<LayerF> {
         "pgram>tool" => vec![random_pgram(r), LayerF::Tool(random_iso(r, 0.3))],
         "pgram>base+tool" => vec![random_pgram(r), LayerF::Tool(random_iso(r, 0.3)), LayerF::Base(random_iso(r, 0.5))],
         "axial-tool" => vec![LayerF::Tool(axial_iso(r))],
+        // couplings for the 5-DOF entries: neither the driven nor the coupled joint is joint 6 (it carries the caller's value)
+        "pgram5" => vec![pgram5(r)],
+        "pgram5>base" => vec![pgram5(r), LayerF::Base(random_iso(r, 0.5))],
+        "pgram5>base+axial-tool" => vec![pgram5(r), LayerF::Tool(axial_iso(r)), LayerF::Base(random_iso(r, 0.5))],
         "axial-frame" => vec![LayerF::Frame(axial_iso(r))],
         "base+axial-frame" => vec![LayerF::Frame(axial_iso(r)), LayerF::Base(random_iso(r, 0.5))],
         "base+axial-tool" => vec![LayerF::Tool(axial_iso(r)), LayerF::Base(random_iso(r, 0.5))],
@@ -600,7 +611,7 @@ pub fn instance_p(sc: &Value, p: Parameters, shared: Option<&Shared>, r: &mut St
 const OFFS: [&str; 3] = ["zero", "quarter", "random"];
 const W16S: [i64; 6] = [0, 4, 8, 12, 16, 5];
 const STACKS: [&str; 11] = ["bare", "tool", "base", "base+tool", "frame", "tool>base", "pgram", "tool>pgram", "pgram>pgram", "pgram>tool", "pgram>base+tool"];
-const STACKS5: [&str; 6] = ["bare", "axial-tool", "base", "base+axial-tool", "axial-frame", "base+axial-frame"];
+const STACKS5: [&str; 9] = ["bare", "axial-tool", "base", "base+axial-tool", "axial-frame", "base+axial-frame", "pgram5", "pgram5>base", "pgram5>base+axial-tool"];
 
 fn rotate(sc: &Value, i: usize) -> Value {
     let mut s = sc.clone();
